@@ -106,18 +106,12 @@ def _structure_returns(stmts, on_return):
             out.extend(on_return(st.value, st))
             return out, False
         if isinstance(st, ast.If) and any(isinstance(x, ast.Return) for x in ast.walk(st)):
+            # what follows the `if` is what each branch goes on with: it is appended to both branches *before* they are structured, so that
+            # inside a branch it lands exactly on the paths that fall through (a nested `if` whose arms partly return included)
             rest = stmts[i + 1:]
-            body, b_falls = _structure_returns(st.body, on_return)
-            orelse, o_falls = _structure_returns(st.orelse, on_return) if st.orelse else ([], True)
-            if rest:
-                rest_new, r_falls = _structure_returns(rest, on_return)
-                if b_falls:
-                    body = body + copy_tree(rest_new)
-                if o_falls:
-                    orelse = orelse + copy_tree(rest_new)
-                falls = (b_falls or o_falls) and r_falls
-            else:
-                falls = b_falls or o_falls
+            body, b_falls = _structure_returns(list(st.body) + [copy_tree(x) for x in rest], on_return)
+            orelse, o_falls = _structure_returns(list(st.orelse) + [copy_tree(x) for x in rest], on_return)
+            falls = b_falls or o_falls
             new_if = ast.If(test=st.test, body=body or [ast.Pass()], orelse=orelse)
             ast.copy_location(new_if, st)
             out.append(new_if)
@@ -265,11 +259,36 @@ class _Inliner:
         def loc(n):
             return ast.fix_missing_locations(ast.copy_location(n, st))
         rep = self.eager(st, loc)
-        if rep is not None or self.eager_only:
+        if rep is not None:
             return rep
+        if self.eager_only:
+            # load-time pass: besides eagerly consumed generators, helpers that are handed a function to call (a bound method, a function
+            # name): what they do is decided by that argument, which only the caller knows
+            if isinstance(st, (ast.Expr, ast.Assign, ast.Return)) and isinstance(st.value, ast.Call) and self._callable_arg(st.value):
+                if isinstance(st, ast.Expr):
+                    return self.splice(st.value, lambda e, at: ([loc(ast.Expr(value=e))] if e is not None and not isinstance(e, ast.Constant) else []))
+                if isinstance(st, ast.Assign) and len(st.targets) == 1:
+                    tgt = st.targets[0]
+                    return self.splice(st.value, lambda e, at: [loc(ast.Assign(targets=[copy_tree(tgt)], value=e if e is not None else ast.Constant(value=None)))],
+                                       need_value=True)
+                if isinstance(st, ast.Return):
+                    return self.splice(st.value, lambda e, at: [loc(ast.Return(value=e))], need_value=True, tail=True)
+            return None
         rep = self.hoist(st, loc)
         if rep is not None:
             return rep
+        if isinstance(st, ast.For) and isinstance(st.iter, ast.Call):
+            # for x in h(a…): with h an ordinary (non-generator) multi-statement helper: the iterable is computed once, first
+            h, base = self.helper(st.iter)
+            if h is not None and not any(isinstance(x, (ast.Yield, ast.YieldFrom)) for x in walk_local(h.node)):
+                hb = [s_ for s_ in h.node.body if not (isinstance(s_, ast.Expr) and isinstance(s_.value, ast.Constant))]
+                if not (len(hb) == 1 and isinstance(hb[0], ast.Return)):
+                    self.count += 1
+                    tmp = "iter__h%d" % self.count
+                    first = loc(ast.Assign(targets=[ast.Name(id=tmp, ctx=ast.Store())], value=copy_tree(st.iter)))
+                    second = copy_tree(st)
+                    second.iter = ast.copy_location(ast.Name(id=tmp, ctx=ast.Load()), st.iter)
+                    return [first, second]
         if isinstance(st, ast.Expr) and isinstance(st.value, ast.Call):
             return self.splice(st.value, lambda e, at: ([loc(ast.Expr(value=e))] if e is not None and not isinstance(e, ast.Constant) else []))
         if isinstance(st, ast.Assign) and len(st.targets) == 1 and isinstance(st.value, ast.Call):
@@ -281,12 +300,42 @@ class _Inliner:
             rep = self.branch_condition(st, loc)
             if rep is not None:
                 return rep
+        if isinstance(st, ast.Assert):
+            # assert h(a…), msg  with h a multi-statement predicate helper: its body, each `return e` becoming `assert e, msg`
+            t, neg = st.test, False
+            if isinstance(t, ast.UnaryOp) and isinstance(t.op, ast.Not):
+                t, neg = t.operand, True
+            h, base = self.helper(t)
+            if h is not None:
+                hb = [s_ for s_ in h.node.body if not (isinstance(s_, ast.Expr) and isinstance(s_.value, ast.Constant))]
+                if not (len(hb) == 1 and isinstance(hb[0], ast.Return)):
+                    def on_ret(e, at):
+                        e = e if e is not None else ast.Constant(value=None)
+                        if neg:
+                            e = ast.UnaryOp(op=ast.Not(), operand=e)
+                        return [loc(ast.Assert(test=e, msg=copy_tree(st.msg) if st.msg is not None else None))]
+                    rep = self.splice(t, on_ret, need_value=True)
+                    if rep is not None:
+                        return rep
         if isinstance(st, ast.Expr) and isinstance(st.value, ast.YieldFrom) and isinstance(st.value.value, ast.Call):
             return self.splice(st.value.value, lambda e, at: [], generator=True)
         if isinstance(st, ast.For) and isinstance(st.iter, ast.Call) and len(st.body) == 1 and isinstance(st.body[0], ast.Expr) \
                 and isinstance(st.body[0].value, ast.Yield) and norm(st.body[0].value.value) == norm(st.target) and not st.orelse:
             return self.splice(st.iter, lambda e, at: [], generator=True)
         return None
+
+    def _callable_arg(self, call):
+        """one of the arguments is a function: a bound method of self, or the name of a function / method of the module"""
+        h, base = self.helper(call)
+        if h is None:
+            return False
+        mod, cls = self.f.module, self.f.cls
+        for a in list(call.args) + [k.value for k in call.keywords]:
+            if isinstance(a, ast.Attribute) and isinstance(a.value, ast.Name) and a.value.id in ("self", "cls") and cls is not None and a.attr in cls.methods:
+                return True
+            if isinstance(a, ast.Name) and a.id in mod.functions:
+                return True
+        return False
 
     def eager(self, st, loc):
         """a generator helper consumed on the spot:
@@ -336,14 +385,23 @@ class _Inliner:
                 used_later = any(isinstance(n, ast.Name) and n.id in tn and isinstance(n.ctx, ast.Load) and n.lineno > end for n in ast.walk(self.f.node))
 
             def plain(e):
-                return _simple_arg(e) or (isinstance(e, (ast.List, ast.Tuple)) and not e.elts)
+                # names and literals only: an attribute read (`pin.wire`) is taken once, when the generator yields — the body may change it
+                return isinstance(e, (ast.Name, ast.Constant)) or (isinstance(e, (ast.List, ast.Tuple)) and not e.elts)
 
             def emit(e, at):
                 # the loop variables stand for what is yielded: substituted where that is a plain expression the body does not rebind
                 vals = [e] if isinstance(tgt, ast.Name) else (list(e.elts) if isinstance(e, ast.Tuple) and tnames is not None and len(e.elts) == len(tnames) else None)
-                if tnames is not None and vals is not None and not used_later and all(plain(v) for v in vals) and not ({t.id for t in tnames} & body_stores):
-                    sub = _Subst({t.id: v for t, v in zip(tnames, vals)}, {})
-                    return [sub.visit(copy_tree(x)) for x in body_t]
+                if tnames is not None and vals is not None and not used_later and not ({t.id for t in tnames} & body_stores):
+                    # per element: substituted when plain, bound by an assignment otherwise
+                    m_, pre_ = {}, []
+                    for t, v in zip(tnames, vals):
+                        if plain(v):
+                            m_[t.id] = v
+                        else:
+                            a_ = ast.Assign(targets=[ast.Name(id=t.id, ctx=ast.Store())], value=v)
+                            pre_.append(ast.fix_missing_locations(ast.copy_location(a_, at)))
+                    sub = _Subst(m_, {})
+                    return pre_ + [sub.visit(copy_tree(x)) for x in body_t]
                 asg = ast.Assign(targets=[copy_tree(tgt)], value=e)
                 ast.copy_location(asg, at)
                 return [ast.fix_missing_locations(asg)] + [copy_tree(x) for x in body_t]
@@ -390,6 +448,20 @@ class _Inliner:
             r = Y().visit(x)
             new.extend(r if isinstance(r, list) else [r])
         self.inlined.append(h.qualname)
+        # a stage of a generator pipeline:  h(g(a…))  with g a generator helper too.  Calling g runs nothing (it only makes the
+        # generator), so when the parameter is read once, as the iterable of the loop h starts with, g(a…) is written there
+        for pa in list(prelude):
+            v = pa.value
+            if not (isinstance(v, ast.Call) and all(_simple_arg(a_) for a_ in v.args) and not v.keywords):
+                continue
+            g_, _b = self.helper(v)
+            if g_ is None or not any(isinstance(x, (ast.Yield, ast.YieldFrom)) for x in walk_local(g_.node)):
+                continue
+            nm_ = pa.targets[0].id
+            uses = [x for s_ in new for x in ast.walk(s_) if isinstance(x, ast.Name) and x.id == nm_]
+            if len(uses) == 1 and new and isinstance(new[0], ast.For) and new[0].iter is uses[0] and prelude[-1] is pa:
+                new[0].iter = v
+                prelude.remove(pa)
         if isinstance(st, ast.For):
             return prelude + new
         if wrap is None:
@@ -406,9 +478,17 @@ class _Inliner:
         if not (isinstance(st, (ast.Assign, ast.Expr, ast.Return)) and isinstance(st.value, ast.Call)):
             return None
         outer = st.value
-        if not outer.args or not isinstance(outer.args[0], ast.Call) or not _simple_arg(outer.func):
+        if not outer.args or not _simple_arg(outer.func):
             return None
-        inner = outer.args[0]
+        comp = None
+        if isinstance(outer.args[0], (ast.GeneratorExp, ast.ListComp, ast.SetComp)) and isinstance(outer.args[0].generators[0].iter, ast.Call):
+            # the outermost iterable of a comprehension is evaluated when the comprehension is created, i.e. first
+            comp = outer.args[0]
+            inner = comp.generators[0].iter
+        elif isinstance(outer.args[0], ast.Call):
+            inner = outer.args[0]
+        else:
+            return None
         h, base = self.helper(inner)
         if h is None:
             return None
@@ -421,7 +501,10 @@ class _Inliner:
         tmp = "arg__h%d" % self.count
         first = loc(ast.Assign(targets=[ast.Name(id=tmp, ctx=ast.Store())], value=inner))
         second = copy_tree(st)
-        second.value.args[0] = ast.copy_location(ast.Name(id=tmp, ctx=ast.Load()), inner)
+        if comp is not None:
+            second.value.args[0].generators[0].iter = ast.copy_location(ast.Name(id=tmp, ctx=ast.Load()), inner)
+        else:
+            second.value.args[0] = ast.copy_location(ast.Name(id=tmp, ctx=ast.Load()), inner)
         first.value = copy_tree(inner)
         return [first, second]
 
@@ -498,15 +581,98 @@ class _Inliner:
                 setattr(st, fld, [T().visit(v) for v in val])
 
 
+def _substitute_field_aliases(node):
+    """`current = self._reference … current._references.remove(self)`: a local bound once to a plain field read of self / a parameter is
+    replaced, at the uses that follow, by the field read it stands for — unless something in between (in document order) could have
+    changed the field: a store to it, a call on the same object, the object handed to a call.  Returns whether anything was replaced."""
+    stores = {}
+    for n in ast.walk(node):
+        if isinstance(n, ast.Name) and isinstance(n.ctx, (ast.Store, ast.Del)):
+            stores[n.id] = stores.get(n.id, 0) + 1
+    params = {a.arg for a in node.args.args}
+    order = {}
+    i = 0
+    todo = [node]
+    while todo:
+        n = todo.pop()
+        order[id(n)] = i
+        i += 1
+        todo.extend(reversed(list(ast.iter_child_nodes(n))))
+    last = {}
+    for n in ast.walk(node):
+        if isinstance(n, (ast.Call, ast.Assign, ast.AugAssign, ast.Delete)):
+            last[id(n)] = max(order[id(x)] for x in ast.walk(n))
+    alias = {}  # name -> [(field read, position of the binding)], every binding of the name being the same field read
+    bad = set()
+    for n in ast.walk(node):
+        if isinstance(n, ast.Assign) and len(n.targets) == 1 and isinstance(n.targets[0], ast.Name):
+            nm = n.targets[0].id
+            if nm not in params and isinstance(n.value, ast.Attribute) and isinstance(n.value.value, ast.Name) \
+                    and (n.value.value.id == "self" or n.value.value.id in params) and stores.get(n.value.value.id, 0) == 0:
+                alias.setdefault(nm, []).append((n.value, last.get(id(n), order[id(n)])))
+            else:
+                bad.add(nm)
+    for nm in list(alias):
+        if nm in bad or len(alias[nm]) != stores.get(nm) or len({norm(v) for v, d in alias[nm]}) != 1:
+            del alias[nm]
+    if not alias:
+        return False
+    disturb = []
+    for n in ast.walk(node):
+        if isinstance(n, ast.Call):
+            roots = [a.id for a in n.args if isinstance(a, ast.Name)]
+            if isinstance(n.func, ast.Attribute) and isinstance(n.func.value, ast.Name):
+                roots.append(n.func.value.id)
+            for r in roots:
+                disturb.append((order[id(n)], last[id(n)], r, None))
+        elif isinstance(n, (ast.Assign, ast.AugAssign, ast.Delete)):
+            tg = n.targets if isinstance(n, (ast.Assign, ast.Delete)) else [n.target]
+            for t in tg:
+                for x in ast.walk(t):
+                    if isinstance(x, ast.Attribute) and isinstance(x.ctx, (ast.Store, ast.Del)) and isinstance(x.value, ast.Name):
+                        disturb.append((order[id(n)], last[id(n)], x.value.id, x.attr))
+    changed = [False]
+
+    class A(ast.NodeTransformer):
+        def visit_Name(self, n):
+            if isinstance(n.ctx, ast.Load) and n.id in alias:
+                at = order.get(id(n))
+                before = [(v_, d_) for v_, d_ in alias[n.id] if at is not None and d_ < at]
+                if not before:
+                    return n
+                v, d = max(before, key=lambda t_: t_[1])
+                root, attr = v.value.id, v.attr
+                for first, lst, r, a in disturb:
+                    if d < first and lst < at and r == root and (a is None or a == attr):
+                        return n
+                changed[0] = True
+                return ast.copy_location(copy_tree(v), n)
+            return n
+    A().visit(node)
+    return changed[0]
+
+
 _cache = {}
 
 
 def eager_generators_inlined(P, f):
     """f's definition with private generator helpers that are consumed on the spot (list(h(…)), X.extend(h(…))) spliced in, or
     None when there is nothing to splice.  Used once, at load time: every rule then sees the container being built in place."""
-    if not any(isinstance(x, ast.Call) and ((isinstance(x.func, ast.Name) and x.func.id in EAGER) or
-                                            (isinstance(x.func, ast.Attribute) and x.func.attr in ("extend", "update")))
-               and len(x.args) == 1 and isinstance(x.args[0], ast.Call) for x in walk_local(f.node)):
+    def maybe(x):
+        if not isinstance(x, ast.Call):
+            return False
+        if ((isinstance(x.func, ast.Name) and x.func.id in EAGER) or (isinstance(x.func, ast.Attribute) and x.func.attr in ("extend", "update"))) \
+                and len(x.args) == 1 and isinstance(x.args[0], ast.Call):
+            return True
+        # a private helper handed a function
+        nm = x.func.id if isinstance(x.func, ast.Name) else (x.func.attr if isinstance(x.func, ast.Attribute) else "")
+        if nm.startswith("_") and not nm.startswith("__"):
+            for a in list(x.args) + [k.value for k in x.keywords]:
+                if (isinstance(a, ast.Attribute) and isinstance(a.value, ast.Name) and a.value.id in ("self", "cls")) or \
+                        (isinstance(a, ast.Name) and a.id in f.module.functions):
+                    return True
+        return False
+    if not any(maybe(x) for x in walk_local(f.node)):
         return None
     node = copy_tree(f.node)
     for parent in ast.walk(node):
@@ -530,7 +696,8 @@ def inlined_view(P, f, keep=()):
     node = copy_tree(f.node)
     inl = _Inliner(P, f, keep)
     node.body = inl.stmts(node.body, 0)
-    if not inl.inlined:
+    aliased = _substitute_field_aliases(node)
+    if not inl.inlined and not aliased:
         _cache[key] = f
         return f
     # a helper that picks constants (attribute / method names) by a test, spliced in: the code that follows is read once per choice
